@@ -13,6 +13,7 @@ import (
 	"errors"
 	"fmt"
 	"io"
+	"net"
 	"os"
 	"os/exec"
 	"path/filepath"
@@ -138,6 +139,7 @@ type procRunner struct {
 	cmd                *exec.Cmd
 	stdout, stderr     io.ReadCloser
 	hostDir, pluginDir string // see xlate
+	forward            bool   // see forwardTCP
 }
 
 func newProcRunner(cmd *exec.Cmd) (runner.Runner, error) {
@@ -185,7 +187,49 @@ func (r *procRunner) Diagnose(context.Context) string { return "" }
 // Address translation of a container-like runner: the plugin sees the shared socket directory under another
 // path (pluginDir, here a symlink to hostDir) and, like a bind mount, nothing outside it. Identity when unset.
 func (r *procRunner) PluginToHost(n, a string) (string, string, error) {
+	if r.forward && n == "unix" {
+		return forwardTCP(a)
+	}
 	return r.xlate(n, a, r.pluginDir, r.hostDir, "plugin->host")
+}
+
+// forwardTCP publishes a plugin's Unix socket on a loopback TCP port (a runner that reaches its plugin through a
+// port-forward: the translation changes the network type, not only the address). One forwarder per socket path.
+var (
+	fwdMu sync.Mutex
+	fwds  = map[string]string{}
+)
+
+func forwardTCP(path string) (string, string, error) {
+	fwdMu.Lock()
+	defer fwdMu.Unlock()
+	if a, ok := fwds[path]; ok {
+		return "tcp", a, nil
+	}
+	ln, err := net.Listen("tcp", "127.0.0.1:0")
+	if err != nil {
+		return "", "", err
+	}
+	fwds[path] = ln.Addr().String()
+	go func() {
+		for {
+			c, err := ln.Accept()
+			if err != nil {
+				return
+			}
+			go func() {
+				u, err := net.Dial("unix", path)
+				if err != nil {
+					c.Close()
+					return
+				}
+				go func() { io.Copy(u, c); u.Close() }()
+				io.Copy(c, u)
+				c.Close()
+			}()
+		}
+	}()
+	return "tcp", ln.Addr().String(), nil
 }
 func (r *procRunner) HostToPlugin(n, a string) (string, string, error) {
 	return r.xlate(n, a, r.hostDir, r.pluginDir, "host->plugin")
@@ -318,6 +362,18 @@ func RunCell(c *Cell) (res *Result) {
 					cmd.Env = append(cmd.Env, cmd0.Env...)
 					return newProcRunner(cmd)
 				}
+			case "runner-fwd": // a runner that reaches the plugin's sockets through TCP port-forwards
+				cmd0 := mkCmd()
+				cfg.UnixSocketConfig = &plugin.UnixSocketConfig{TempDir: hostTmp}
+				cfg.RunnerFunc = func(l hclog.Logger, cmd *exec.Cmd, tmp string) (runner.Runner, error) {
+					cmd.Path, cmd.Args = cmd0.Path, cmd0.Args
+					cmd.Env = append(cmd.Env, cmd0.Env...)
+					r, err := newProcRunner(cmd)
+					if err == nil {
+						r.(*procRunner).forward = true
+					}
+					return r, err
+				}
 			case "runner-xlate": // a container-like runner: the plugin sees the socket directory under another path
 				cmd0 := mkCmd()
 				cfg.UnixSocketConfig = &plugin.UnixSocketConfig{TempDir: hostTmp}
@@ -409,10 +465,16 @@ func RunCell(c *Cell) (res *Result) {
 			case "get":
 				v, err := st.Get()
 				record(op, t0, err, strconv.Itoa(int(v)))
-			case "callback":
-				record(op, t0, st.Callback(), "")
+			case "callback": // (value: transport security of the brokered connection as seen by the host, gRPC only)
+				kv.LastBrokeredAuth.Store("")
+				err := st.Callback()
+				a, _ := kv.LastBrokeredAuth.Load().(string)
+				record(op, t0, err, a)
 			case "revcallback":
-				record(op, t0, st.RevCallback(), "")
+				kv.LastBrokeredAuth.Store("")
+				err := st.RevCallback()
+				a, _ := kv.LastBrokeredAuth.Load().(string)
+				record(op, t0, err, a)
 			case "orphan":
 				record(op, t0, st.Orphan(), "")
 			case "big":
